@@ -343,6 +343,10 @@ def rule_sib(ctx):
         res.missing_anchor("SolverState::update")
     else:
         r = Render(fn["crate"])
+        inits = {}
+        for n in walk(fn["body"]):
+            if n.get("k") == "LetStmt" and n.get("init") is not None and n["pat"].get("k") == "Bind":
+                inits[n["pat"]["local"]] = n["init"]
         blocks = []
         for n in walk(fn["body"]):
             if n.get("k") == "If" and any(x.get("k") == "Field" and x["name"] == "gradient_fixed" for x in walk(n["then"])):
@@ -350,20 +354,90 @@ def rule_sib(ctx):
                     blocks.append(n)
         blocks = [b for b in blocks if not any(b is not o and any(y is b for y in walk(o["then"])) for o in blocks)]
         res.instance("%s : %d gradient_fixed maintenance blocks" % (fn_key(fn), len(blocks)))
+
+        def resolve_calls(e, depth=0, seen=None):
+            """(locals X of self.bound(X), locals Y of distances(Y, _)) reachable from expression e through let-bound locals"""
+            seen = seen if seen is not None else set()
+            bs, ds = set(), set()
+            for x in walk(e):
+                if x.get("k") == "MethodCall" and x["name"] == "bound" and len(x["args"]) == 1:
+                    a0 = peel_refs(x["args"][0])
+                    if a0.get("k") == "Path" and "local" in a0:
+                        bs.add(a0["local"])
+                if x.get("k") == "MethodCall" and x["name"] == "distances" and len(x["args"]) == 2:
+                    a0 = peel_refs(x["args"][0])
+                    if a0.get("k") == "Path" and "local" in a0:
+                        ds.add(a0["local"])
+                if x.get("k") == "Path" and x.get("local") in inits and x["local"] not in seen and depth < 4:
+                    seen.add(x["local"])
+                    b2, d2 = resolve_calls(inits[x["local"]], depth + 1, seen)
+                    bs |= b2
+                    ds |= d2
+            return bs, ds
+
+        def summarise(blk):
+            """(X, snapshot local U, {then/else/always: set of ops}, bound-args, distances-args) of one maintenance block"""
+            cond = strip(blk["c"])
+            X = U = None
+            for x in walk(cond):
+                if x.get("k") == "MethodCall" and x["name"] == "reached_upper":
+                    rc = peel_refs(x["recv"])
+                    if rc.get("k") == "Index" and self_field(rc["e"]) == "alpha":
+                        i0 = peel_refs(rc["i"])
+                        if i0.get("k") == "Path" and "local" in i0:
+                            X = i0["local"]
+            if cond.get("k") == "Binary":
+                for side in (cond["l"], cond["r"]):
+                    t = peel_refs(side)
+                    if t.get("k") == "Path" and "local" in t:
+                        U = t["local"]
+            from .layout import with_parents
+            signs = {}
+            bs, ds = set(), set()
+            for x, anc in with_parents(blk["then"]):
+                if x.get("k") != "AssignOp" or x["op"] not in ("+", "-"):
+                    continue
+                lhs_gf = any(self_field(y) == "gradient_fixed" for y in walk(x["l"]))
+                loops = [a_ for a_ in anc if a_.get("k") == "Match" and a_.get("src") == "ForLoopDesugar" and len(a_["arms"]) == 1]
+                via_iter = bool(loops) and any(self_field(y) == "gradient_fixed" for y in walk(loops[-1]["scrut"]))
+                if not (lhs_gf or via_iter):
+                    continue
+                pol = "always"
+                for j_, a_ in enumerate(anc):
+                    if a_.get("k") == "If" and peel_refs(a_["c"]).get("k") == "Path" and peel_refs(a_["c"]).get("local") == U:
+                        nxt = anc[j_ + 1] if j_ + 1 < len(anc) else x
+                        pol = "then" if nxt is a_["then"] else "else"
+                signs.setdefault(pol, set()).add(x["op"])
+                b2, d2 = resolve_calls(x["r"])
+                bs |= b2
+                ds |= d2
+                for lp in loops:
+                    b3, d3 = resolve_calls(lp["scrut"])
+                    bs |= b3
+                    ds |= d3
+            return X, U, signs, bs, ds
         if len(blocks) == 2:
-            def norm(b):
-                t = r.e(b)
-                t = re.sub(r"\b(\w+)_j\b", r"\1_i", t)
-                t = re.sub(r"\buj\b", "ui", t)
-                t = re.sub(r"\bj\b", "i", t)
-                return t
-            a, b = norm(blocks[0]), norm(blocks[1])
-            if a == b:
-                res.ok()
-            else:
-                # first difference
-                k0 = next((i for i in range(min(len(a), len(b))) if a[i] != b[i]), 0)
-                res.violate("%s : i-j-blocks-differ" % fn_key(fn), "the blocks for variable i and variable j differ beyond renaming: `...%s` vs `...%s`" % (a[max(0, k0 - 30):k0 + 40], b[max(0, k0 - 30):k0 + 40]), fn_loc(fn, blocks[1]["ln"]))
+            sums = [summarise(b) for b in blocks]
+            bad = False
+            for (X, U, signs, bs, ds), blk in zip(sums, blocks):
+                if X is None or not signs:
+                    res.undecided("%s : block-form" % fn_key(fn), "a gradient_fixed maintenance block was not understood (variable or writes not found)", fn_loc(fn, blk["ln"]))
+                    bad = True
+                    continue
+                if (bs and bs != {X}) or (ds and ds != {X}):
+                    res.violate("%s : block-operand-of-other-variable" % fn_key(fn), "the block guarded by the status change of one working-set variable updates gradient_fixed with the bound or the kernel column of the other one", fn_loc(fn, blk["ln"]))
+                    bad = True
+            if not bad:
+                s0, s1 = sums[0][2], sums[1][2]
+                if "always" in s0 or "always" in s1:
+                    if s0 == s1:
+                        res.ok()
+                    else:
+                        res.undecided("%s : sign-form" % fn_key(fn), "the signs of the two maintenance blocks are expressed differently and cannot be compared", fn_loc(fn, blocks[1]["ln"]))
+                elif s0 == s1:
+                    res.ok()
+                else:
+                    res.violate("%s : i-j-blocks-differ" % fn_key(fn), "the blocks for variable i and variable j apply opposite signs for the same status change: %s vs %s" % (sorted((k_, sorted(v)) for k_, v in s0.items()), sorted((k_, sorted(v)) for k_, v in s1.items())), fn_loc(fn, blocks[1]["ln"]))
         else:
             res.undecided("%s : blocks-not-found" % fn_key(fn), "expected two gradient_fixed maintenance blocks in update, found %d" % len(blocks), fn_loc(fn))
     # (3) reconstruct_gradient: guard `alpha[X].free_floating()` and the summand `alpha[Y].val()` use the same X
